@@ -255,6 +255,61 @@ fn check_sub_ontologies(m: &Model, o: &Ontology, f: fn(&Model, &Ontology) -> Che
     Ok(())
 }
 
+/// Construction path "JAX text files": hp.obo, genes_to_phenotype.txt and phenotype.hpoa are written from the case (stanzas
+/// in the supply order of the case, rows in the order of the facts; records without any term cannot be expressed in
+/// these files and are left out) and loaded with Ontology::from_standard. The files live in a scratch directory (below
+/// $VERIF_SCRATCH, which ./check points into its build directory; else the system temp dir) for the duration of the call.
+pub fn build_text(c: &Case) -> Result<Ontology, String> {
+    static CTR: std::sync::atomic::AtomicUsize = std::sync::atomic::AtomicUsize::new(0);
+    let m = Model::new(c);
+    let base = std::env::var("VERIF_SCRATCH").map(std::path::PathBuf::from).unwrap_or_else(|_| std::env::temp_dir());
+    let dir = base.join(format!("verif-explore-{}-{}", std::process::id(), CTR.fetch_add(1, std::sync::atomic::Ordering::Relaxed)));
+    std::fs::create_dir_all(&dir).map_err(|e| format!("scratch dir: {e}"))?;
+    let hp = |id: u32| format!("HP:{id:07}");
+    let mut obo = String::from("format-version: 1.2\ndata-version: hp/releases/2024-03-07\n");
+    for node in node_order(c.n, c.order) {
+        obo.push_str(&format!("\n[Term]\nid: {}\nname: {}\n", hp(m.ids[node]), name_of(node)));
+        let mut ps: Vec<usize> = m.parents[node].iter().copied().collect();
+        if c.order & 1 == 1 {
+            ps.reverse();
+        }
+        for p in ps {
+            obo.push_str(&format!("is_a: {} ! {}\n", hp(m.ids[p]), name_of(p)));
+        }
+    }
+    let mut g2p = String::from("ncbi_gene_id\tgene_symbol\thpo_id\thpo_name\tfrequency\tdisease_id\n");
+    let mut hpoa = String::from("#description: generated\ndatabase_id\tdisease_name\tqualifier\thpo_id\treference\tevidence\n");
+    for &(k, r, d) in &c.facts {
+        if d == NO_TERM {
+            continue;
+        }
+        let t = d as usize;
+        match k {
+            0 => g2p.push_str(&format!("{r}\t{}\t{}\t{}\t-\tOMIM:1\n", rec_name(0, r), hp(m.ids[t]), name_of(t))),
+            1 => hpoa.push_str(&format!("OMIM:{r}\t{}\t\t{}\tPMID:1\tTAS\n", rec_name(1, r), hp(m.ids[t]))),
+            _ => hpoa.push_str(&format!("ORPHA:{r}\t{}\t\t{}\tPMID:1\tTAS\n", rec_name(2, r), hp(m.ids[t]))),
+        }
+    }
+    let w = |name: &str, text: &str| std::fs::write(dir.join(name), text).map_err(|e| format!("scratch file: {e}"));
+    w("hp.obo", &obo)?;
+    w("genes_to_phenotype.txt", &g2p)?;
+    w("phenotype.hpoa", &hpoa)?;
+    let folder = dir.to_string_lossy().to_string();
+    let r = panic::catch_unwind(|| Ontology::from_standard(&folder));
+    let _ = std::fs::remove_dir_all(&dir);
+    match r {
+        Ok(Ok(o)) => Ok(o),
+        Ok(Err(e)) => Err(format!("from_standard failed: {e}")),
+        Err(_) => Err("from_standard panicked".into()),
+    }
+}
+/// the case as the text files can express it (no records without terms)
+fn text_case(c: &Case) -> Case {
+    let mut ct = c.clone();
+    ct.facts.retain(|f| f.2 != NO_TERM);
+    ct
+}
+
 fn node_order(n: usize, order: u8) -> Vec<usize> {
     let mut v: Vec<usize> = (0..n).collect();
     match order {
@@ -433,6 +488,12 @@ pub fn check_c01(c: &Case) -> Check {
             check_c01_on(&m, &o2).map_err(|e| format!("as_bytes -> from_bytes path: {e}"))?;
         }
         check_sub_ontologies(&m, &o, check_c01_on)?;
+        // text construction path (a load failure is C09's to report)
+        if c.n <= 4 {
+            if let Ok(ot) = build_text(c) {
+                check_c01_on(&m, &ot).map_err(|e| format!("hp.obo path (from_standard): {e}"))?;
+            }
+        }
         for version in [1u8, 2, 3] {
             for obsolete in [false, true] {
                 let enc = Enc { version, reverse: c.order & 1 == 1, flags: vec![(obsolete, 0); c.n], rename_term: None, rename_rec: None };
@@ -476,6 +537,13 @@ pub fn check_c02(c: &Case) -> Check {
             check_c02_on(&m, &o2).map_err(|e| format!("as_bytes -> from_bytes path: {e}"))?;
         }
         check_sub_ontologies(&m, &o, check_c02_on)?;
+        // text construction path (records without terms cannot be expressed; a load failure is C09's to report)
+        if c.n <= 3 {
+            let ct = text_case(c);
+            if let Ok(ot) = build_text(&ct) {
+                check_c02_on(&Model::new(&ct), &ot).map_err(|e| format!("text path (from_standard): {e}"))?;
+            }
+        }
         for version in [3u8, 2, 1] {
             let mut cv = c.clone();
             if version < 3 {
@@ -1085,6 +1153,26 @@ pub fn check_c16(c: &Case) -> Check {
             return Err(format!("supply order {order} gives a different ontology:\n {w}\n vs order {}:\n {base}", c.order));
         }
     }
+    // text files: stanzas and rows in every supply order (a load failure is C09's to report)
+    if c.idmap == 0 && c.n > 1 && c.n <= 3 && c.edges & 1 == 1 {
+        let ct = text_case(c);
+        let mut first: Option<String> = None;
+        for order in 0..4u8 {
+            let mut c2 = ct.clone();
+            c2.order = order;
+            if order & 2 == 2 {
+                c2.facts.reverse();
+            }
+            if let Ok(o) = build_text(&c2) {
+                let w = walk(&o);
+                match &first {
+                    None => first = Some(w),
+                    Some(f) if *f != w => return Err(format!("text files with stanzas / rows in supply order {order} give a different ontology:\n {w}\n vs:\n {f}")),
+                    _ => {}
+                }
+            }
+        }
+    }
     // binary round trip through the records in hash-map order
     if c.idmap == 0 && c.n > 1 && c.edges & 1 == 1 {
         let o = build(c, true)?;
@@ -1101,11 +1189,23 @@ pub fn check_c16(c: &Case) -> Check {
             if version < 3 {
                 cv.facts.retain(|f| f.0 != 2);
             }
-            let e = |reverse: bool| Enc { version, reverse, flags: vec![(false, 0); c.n], rename_term: None, rename_rec: None };
-            if let (Ok(Ok(a)), Ok(Ok(b))) = (load(&encode(&cv, &e(false))), load(&encode(&cv, &e(true)))) {
-                let (wa, wb) = (walk(&a), walk(&b));
-                if wa != wb {
-                    return Err(format!("v{version} file with its records in reverse order gives a different ontology:\n {wb}\n vs:\n {wa}"));
+            // without flags, and (v2/v3) with each single term obsolete and replaced by the next one
+            let m = Model::new(c);
+            let mut patterns: Vec<Vec<(bool, u32)>> = vec![vec![(false, 0); c.n]];
+            if version >= 2 {
+                for t in 0..c.n {
+                    let mut f = vec![(false, 0u32); c.n];
+                    f[t] = (true, m.ids[(t + 1) % c.n]);
+                    patterns.push(f);
+                }
+            }
+            for flags in patterns {
+                let e = |reverse: bool| Enc { version, reverse, flags: flags.clone(), rename_term: None, rename_rec: None };
+                if let (Ok(Ok(a)), Ok(Ok(b))) = (load(&encode(&cv, &e(false))), load(&encode(&cv, &e(true)))) {
+                    let (wa, wb) = (walk(&a), walk(&b));
+                    if wa != wb {
+                        return Err(format!("v{version} file (flags {flags:?}) with its records in reverse order gives a different ontology:\n {wb}\n vs:\n {wa}"));
+                    }
                 }
             }
         }
@@ -2164,6 +2264,27 @@ pub fn check_c18(c: &Case) -> Check {
     let fb = variant_facts(&base);
     // identity
     compare_expect(&o, &o, &fb, &fb)?;
+    // an ontology compared with its binary round trip reports nothing (needs the standard roots; names beyond the
+    // documented 255-byte limit are cut by the format, and compare then rightly reports a rename: skipped)
+    if c.idmap == 0 && c.n >= 2 && c.edges & 1 == 1 {
+        let any_long = o.iter().any(|t| t.name().len() > 255) || o.genes().any(|g| g.name().len() > 255);
+        if !any_long {
+            // a file that does not load is C07's / C08's to report
+            if let Ok(Ok(o2)) = load(&o.as_bytes()) {
+                for (x, y, dir) in [(&o, &o2, "original vs round trip"), (&o2, &o, "round trip vs original")] {
+                    let cmp = x.compare(y);
+                    let n = cmp.added_hpo_terms().len() + cmp.removed_hpo_terms().len() + cmp.changed_hpo_terms().len()
+                        + cmp.added_genes().len() + cmp.removed_genes().len() + cmp.changed_genes().len()
+                        + cmp.added_omim_diseases().len() + cmp.removed_omim_diseases().len() + cmp.changed_omim_diseases().len()
+                        + cmp.added_orpha_diseases().len() + cmp.removed_orpha_diseases().len() + cmp.changed_orpha_diseases().len();
+                    if n != 0 {
+                        let names: Vec<String> = cmp.changed_hpo_terms().iter().filter_map(|d| d.changed_name().map(|(a, b)| format!("{a:?} -> {b:?}"))).collect();
+                        return Err(format!("compare({dir}) reports {n} differences after a binary round trip (renamed terms: {names:?})"));
+                    }
+                }
+            }
+        }
+    }
     let mut variants: Vec<Variant> = vec![];
     if c.n > 1 {
         let mut v = c.clone();
@@ -2562,13 +2683,27 @@ fn c20_parse_oracle(s: &str) -> Option<u32> {
     }
     Some(v as u32)
 }
+/// `HpoTermId::from(String)`, `id == &str` and `id == str` on a text that denotes `id`
+fn c20_string_paths_agree(id: HpoTermId, s: &str) -> bool {
+    let owned = s.to_string();
+    matches!(panic::catch_unwind(move || HpoTermId::from(owned) == id && id == s && <HpoTermId as PartialEq<str>>::eq(&id, s)), Ok(true))
+}
 fn c20_one_text(s: &str) -> Check {
     let got = panic::catch_unwind(|| HpoTermId::try_from(s).ok().map(|x| x.as_u32()));
     match got {
         Err(_) => Err(format!("HpoTermId::try_from({s:?}) panicked")),
         Ok(g) => {
             let e = c20_parse_oracle(s);
-            if g == e { Ok(()) } else { Err(format!("HpoTermId::try_from({s:?}) = {g:?}, specified {e:?}")) }
+            if g != e {
+                return Err(format!("HpoTermId::try_from({s:?}) = {g:?}, specified {e:?}"));
+            }
+            // on text that denotes an id, the other conversions from text return the same id
+            if let Some(v) = e {
+                if !c20_string_paths_agree(HpoTermId::from_u32(v), s) {
+                    return Err(format!("From<String> / PartialEq<str> on {s:?} disagree with try_from (= {v})"));
+                }
+            }
+            Ok(())
         }
     }
 }
@@ -2591,6 +2726,10 @@ pub fn check_c20_all(thorough: bool) -> Result<(usize, usize), String> {
                 if HpoTermId::from(id.to_be_bytes()) != id || id.to_be_bytes() != x.to_be_bytes() {
                     return Err(format!("id {x}: byte round trip fails"));
                 }
+                // the other conversions from text (From<String>, == str) agree on the rendering
+                if !c20_string_paths_agree(id, &s) {
+                    return Err(format!("id {x}: From<String> / PartialEq<str> disagree with the rendering {s:?}"));
+                }
                 x += nthreads;
             }
             Ok(())
@@ -2605,6 +2744,9 @@ pub fn check_c20_all(thorough: bool) -> Result<(usize, usize), String> {
         let s = id.to_string();
         if s != c20_render(x) || HpoTermId::try_from(s.as_str()).ok().map(|i| i.as_u32()) != Some(x) {
             return Err(format!("id {x} renders as {s:?} (specified {:?}) or does not parse back", c20_render(x)));
+        }
+        if !c20_string_paths_agree(id, &s) {
+            return Err(format!("id {x}: From<String> / PartialEq<str> disagree with the rendering {s:?}"));
         }
         ids += 1;
     }
